@@ -26,6 +26,14 @@ func NewDevice(reg func(table int, addr int) uint16, bit func(table int, addr in
 	return d
 }
 
+// Clone returns an independent copy of the device (the writable tables are copied, the read-only ones shared).
+func (d *Device) Clone() *Device {
+	c := *d
+	c.Holding = append([]uint16(nil), d.Holding...)
+	c.Coils = append([]bool(nil), d.Coils...)
+	return &c
+}
+
 func exc(r Req, code uint8) Resp {
 	return Resp{FC: r.FC, Unit: r.Unit, TID: r.TID, Exc: true, ExCode: code, Count: -1}
 }
